@@ -315,7 +315,25 @@ def _str_encode2(interp, s, *a, **k):
     raise UnicodeEncodeError(str(enc), u'\xff', 0, 1, 'ordinal not in range')
 
 
+def _str_split(interp, s, sep=None, maxsplit=-1):
+    """s.split(sep, 1) with a literal separator: exact -- either sep does not occur and the result is [s], or
+    s == head + sep + tail with sep not occurring in head (first occurrence) and the result is [head, tail]."""
+    if maxsplit != 1 or not isinstance(sep, (str, bytes)) or sep in ('', b''):
+        raise Unsupported("split of symbolic text other than split(<literal>, 1)")
+    lit = s._lit(sep)
+    if lit is None:
+        raise TypeError("must be str or None, not bytes")
+    mk = interp.ctx.bytes if isinstance(s, SBytes) else interp.ctx.str
+    if interp.ctx.branch(z3.Contains(s.t, lit)):
+        head, tail = mk('split_head', declare=False), mk('split_tail', declare=False)
+        interp.ctx.assume(s.t == z3.Concat(head.t, lit, tail.t))
+        interp.ctx.assume(z3.Not(z3.Contains(head.t, lit)))
+        return [head, tail]
+    return [s]
+
+
 _STR_METHODS = {
+    'split': _str_split,
     'startswith': _str_startswith,
     'endswith': _str_endswith,
     'encode': _str_encode2,
